@@ -44,6 +44,7 @@ type scenario struct {
 	DialMs     int    `json:"dial_timeout_ms"`
 	WriteMs    int    `json:"write_timeout_ms"`
 	OneWay     bool   `json:"one_way"`
+	Proto      string `json:"proto"`
 }
 
 // peer is a fault-script peer that can be turned healthy.
@@ -72,6 +73,16 @@ func (p *peer) handler(ev *netlab.ReqEvent) {
 	}
 	switch p.mode.Load().(string) {
 	case "read-then-silence", "accept-then-silence":
+	case "late-at-deadline":
+		// the reply lands within a few hundred microseconds of the caller's deadline
+		p.mu.Lock()
+		j := time.Duration(p.rng.Intn(500)-400) * time.Microsecond
+		p.mu.Unlock()
+		at := ev.Time.Add(p.dl + j)
+		go func() {
+			time.Sleep(time.Until(at))
+			_ = ev.Conn.Send(netlab.Echo(ev))
+		}()
 	case "late-0.5", "late-0.9", "late-1.1", "late-3":
 		f := map[string]float64{"late-0.5": 0.5, "late-0.9": 0.9, "late-1.1": 1.1, "late-3": 3}[p.mode.Load().(string)]
 		go func() {
@@ -161,6 +172,19 @@ func newPeer(fault string, dl time.Duration, seed int64) *peer {
 		p.mu.Lock()
 		p.rawL = l
 		p.mu.Unlock()
+	case "garbage-random-on-accept":
+		l := netlab.Listen()
+		p.addr = l.Addr
+		p.rawL = l
+		go func() {
+			for {
+				c, err := l.L.Accept()
+				if err != nil {
+					return
+				}
+				c.Write([]byte("this is not a TLS server hello\n"))
+			}
+		}()
 	case "close-before-read":
 		p.srv = netlab.NewScriptServer(p.handler)
 		p.srv.OnAccept = func(c *netlab.SConn) bool { return p.healthy.Load() }
@@ -242,6 +266,7 @@ func newClient(sc scenario, addr string) *rpcw.Client {
 	if sc.Fault == "never-read" {
 		o.QueueLen = 1
 	}
+	o.Proto = sc.Proto
 	if sc.Source == "proxy-timeout" {
 		o.InvokeTimeoutMs = sc.DeadlineMs
 	} else {
@@ -334,6 +359,12 @@ func runScenario(sc scenario) {
 	if !ok {
 		run.Violation("resources-left-behind", sc.Fault+":"+map[bool]string{true: "oneway", false: "twoway"}[sc.OneWay], fmt.Sprintf("after all calls returned: in-flight counter %d (before %d), pending-reply entries %d (before %d), manager counter %d (before %d); scenario %+v",
 			cl.SP.VerifQueueLen(), q0, cl.SP.VerifPendingReplies(), p0, cl.SP.VerifInvokeNum(), i0, sc), wit(map[string]interface{}{"outcomes": classes}))
+		return
+	}
+	if sc.Proto == "ssl" {
+		// no TLS server is scripted: the deadline and the counters are what this scenario decides
+		run.Eval(int64(sc.Callers * sc.PerCaller))
+		run.Distinct(fmt.Sprintf("ssl|%s|%s|%d|g%d", sc.Fault, sc.Source, sc.DeadlineMs, sc.Callers))
 		return
 	}
 	// ---- control batch on the now healthy peer ----
@@ -462,6 +493,21 @@ func main() {
 				}
 			}
 		}
+	}
+	// TLS endpoints: the handshake is part of connection establishment and must be bounded too
+	for si, src := range sources {
+		for _, f := range []string{"accept-then-silence", "refuse", "read-then-silence"} {
+			if f == "read-then-silence" {
+				f = "garbage-random-on-accept"
+			}
+			id++
+			scs = append(scs, scenario{ID: id, Fault: f, Source: src, DeadlineMs: []int{100, 300, 600}[si], Callers: []int{1, 4}[id%2], PerCaller: 2, DialMs: 300, WriteMs: 500, Proto: "ssl"})
+		}
+	}
+	// replies that land right at the caller's deadline, many callers, many calls
+	for _, src := range sources {
+		id++
+		scs = append(scs, scenario{ID: id, Fault: "late-at-deadline", Source: src, DeadlineMs: 20, Callers: 32, PerCaller: run.Pick(40, 400), DialMs: 300, WriteMs: 500})
 	}
 	sem := make(chan struct{}, 16)
 	var wg sync.WaitGroup
